@@ -183,7 +183,18 @@ func genSource(t *rapid.T) sourceCase {
 			return piece{T: sourceMapTail(rapid.SampledFrom(sourceMaps).Draw(t, "sm"))}
 		}
 	}
-	switch mode := rapid.IntRange(0, 9).Draw(t, "mode"); {
+	switch mode := rapid.IntRange(0, 10).Draw(t, "mode"); {
+	case mode == 10:
+		c.Mode = "regexp-prefixes"
+		c.Sep = ""
+		n := rapid.IntRange(1, 6).Draw(t, "n")
+		for i := 0; i < n; i++ {
+			if rapid.IntRange(0, 2).Draw(t, "whole") == 0 {
+				c.Pieces = append(c.Pieces, piece{T: rapid.SampledFrom(regexpSeeds).Draw(t, "seed")})
+			} else {
+				c.Pieces = append(c.Pieces, piece{T: rapid.SampledFrom(regexpAtoms).Draw(t, "atom")})
+			}
+		}
 	case mode < 4:
 		c.Mode = "soup"
 		n := rapid.IntRange(1, 30).Draw(t, "n")
@@ -460,8 +471,66 @@ func offsetOf(src string, line, col int) int {
 	return len(src)
 }
 
+var regexpAtoms = []string{"(", ")", "(?", "(?:", "(?=", "(?!", "(?<", "[", "]", "[^", "-", "{", "}", "{1", "{1,", "{1,2}", "\\", "\\u", "\\u00", "\\x", "\\c", "\\1", "\\k<", "\\d", "\\b", "|", "*", "+", "?", ".", "^", "$", "a", "b", "/", "\n", "\u00e9", "\U0001F600", ","}
+
+// regexpSeeds: valid and near-valid pattern bodies; mode "regexp-prefixes" truncates each at every position.
+var regexpSeeds = []string{
+	`(?:a)b`, `(?=a)b`, `(?!a)b`, `(?<n>a)\k<n>`, `(?<=a)b`, `(?i)a`, `(?P<x>a)`, `(a)|(b)\1\2`, `(((a))(b))\3`, `\1(a)`,
+	`[a-z]`, `[^\]\\]`, `[\b\d-x]`, `[]`, `[^]`, `[z-a]`, `[[:alpha:]]`, `[a-\d]`, `[\u0041-\x5a]`,
+	`a{1,2}`, `a{1,}`, `a{12}?`, `a{,5}`, `a{2}{3}`, `x{`, `a{99999}`, `a*?b+?c??`, `^*$+`, `\b{2}`,
+	`\u0041\x41\cA\0\08`, `\u00`, `\x4`, `\c`, `\c1`, `\u{1F600}`, `\p{L}\P{Lu}`, `\d+\D\w\W\s\S\b\B`, `\/\.\$\(\)`, `\Qa\E\z\A\C`,
+	`a|b||c|`, `.`, `^$`, `()`, `(|)`, `(?:)`, `)`, `]`, `}`, `*a`, `+`, `?`, `a**`, "a\\\nb", "\u00e9(\U0001F600)[\u2028]", "a\x00b",
+}
+
+const regexpOps = 12
+
+// runRegexpPrefixes: every prefix of the pattern as a regular expression literal (through Compile, Run,
+// Eval) and as a string handed to RegExp, new RegExp, compile, match, search, split and replace.
+func runRegexpPrefixes(pattern string, limit int) (l entryLog) {
+	var vm *otto.Otto
+	fresh := func() { vm = newVM(limit, 30000) }
+	fresh()
+	step := func(name string, fn func()) {
+		harness.Arm(vm, 30000)
+		before := len(l.panics)
+		l.call(name, fn)
+		if len(l.panics) > before {
+			fresh()
+		}
+	}
+	for k := 0; k <= len(pattern); k++ {
+		p := pattern[:k]
+		lit := "/" + p + "/"
+		where := func(s string) string { return fmt.Sprintf("%s with pattern %q", s, p) }
+		step(where("parser.ParseFile(/p/)"), func() { _, _ = parser.ParseFile(nil, "", lit, 0) })
+		step(where("parser.ParseFile(/p/, IgnoreRegExpErrors)"), func() { _, _ = parser.ParseFile(nil, "", lit+"g", parser.IgnoreRegExpErrors) })
+		step(where("parser.TransformRegExp"), func() { _, _ = parser.TransformRegExp(p) })
+		step(where("Otto.Compile(/p/)"), func() { _, _ = vm.Compile("", lit+"gim") })
+		step(where("Otto.Run(/p/.test)"), func() { _, _ = vm.Run(lit + `.test("xab")`) })
+		step(where("Otto.Eval(x = /p/)"), func() { _, _ = vm.Eval("var x = " + lit + "; x.source") })
+		step(where("Otto.Set(pattern)"), func() { _ = vm.Set("__p", p) })
+		for _, js := range []string{`new RegExp(__p)`, `RegExp(__p, "g").exec("xab")`, `/x/.compile(__p)`, `"xab".match(__p)`, `"xab".search(__p)`, `"xab".split(__p)`, `"xab".replace(__p, "$1$&")`, `"xab".replace(new RegExp(__p, "g"), function(m){return m})`} {
+			js := js
+			step(where("Otto.Run("+js+")"), func() { _, _ = vm.Run(js) })
+		}
+		step(where("Otto.Call(new RegExp, nil, p)"), func() { _, _ = vm.Call("new RegExp", nil, p, "g") })
+	}
+	l.classes = append(l.classes, "regexp-prefixes")
+	return l
+}
+
 func runSource(c sourceCase) (res jobResult) {
 	src := string(c.bytes())
+	if c.Mode == "regexp-prefixes" {
+		if len(src) > 200 {
+			src = src[:200]
+		}
+		l := runRegexpPrefixes(src, c.Limit)
+		res.Panics = l.panics
+		res.Classes = append(l.classes, "mode:"+c.Mode)
+		res.Nontrivial = len(src) >= 2
+		return res
+	}
 	l, nt := runSourceText(src, c.Limit)
 	res.Panics = l.panics
 	res.Excluded = l.excluded
@@ -523,7 +592,7 @@ func truncate(s string, n int) string {
 
 var sourceFacet = harness.Register(&harness.Facet[sourceCase]{
 	Name:     "source-bytes",
-	Rule:     "rapid: source text built from pieces — a token soup (every ES5 keyword and future reserved word, every punctuator, identifiers incl. unicode escapes, numeric/string/regexp literals in valid, partial and hostile forms, comments, line terminators, BOM, hostile one-line snippets), raw invalid UTF-8 / NUL bytes, pieces repeated up to 20000 times (very long identifiers and numbers), nesting openers repeated 3…5000 times with or without matching closers, inline base64 source maps, and valid programs from the semantic generator that are truncated, cut, spliced with another program, have ranges duplicated and tokens or raw bytes inserted. Each text goes, inside a worker subprocess on a runtime with stack depth limit ∈ {2,5,16,64,500} and a poll budget, through parser.ParseFile (two modes), parser.ParseFunction (as parameters and as body), the public scanner, (texts ≤ 300 bytes: ParseFile and ParseFunction on EVERY prefix, i.e. end of input after and inside every token), Otto.Compile, Run(*Script), Run(string), Run(*ast.Program), Run(io.Reader), Eval, Otto.Call (three forms), Otto.Object, Otto.Get/Set with the text as name, and as a string value through eval/Function/RegExp/JSON.parse/URI/Date.parse/etc. Oracle: every call returns; no Go panic crosses the API (the poll-budget sentinel excepted); the worker survives and answers. Non-trivial = the text is accepted or otto's scanner delivers ≥ 3 tokens before the first syntax error; distinct by the piece list",
+	Rule:     "rapid: source text built from pieces — a token soup (every ES5 keyword and future reserved word, every punctuator, identifiers incl. unicode escapes, numeric/string/regexp literals in valid, partial and hostile forms, comments, line terminators, BOM, hostile one-line snippets), raw invalid UTF-8 / NUL bytes, pieces repeated up to 20000 times (very long identifiers and numbers), nesting openers repeated 3…5000 times with or without matching closers, inline base64 source maps, and regular-expression bodies (seed patterns and atom soups) cut at EVERY position and used both as /literal/ and as the string handed to RegExp, new RegExp, compile, match, search, split, replace and parser.TransformRegExp, and valid programs from the semantic generator that are truncated, cut, spliced with another program, have ranges duplicated and tokens or raw bytes inserted. Each text goes, inside a worker subprocess on a runtime with stack depth limit ∈ {2,5,16,64,500} and a poll budget, through parser.ParseFile (two modes), parser.ParseFunction (as parameters and as body), the public scanner, (texts ≤ 300 bytes: ParseFile and ParseFunction on EVERY prefix, i.e. end of input after and inside every token), Otto.Compile, Run(*Script), Run(string), Run(*ast.Program), Run(io.Reader), Eval, Otto.Call (three forms), Otto.Object, Otto.Get/Set with the text as name, and as a string value through eval/Function/RegExp/JSON.parse/URI/Date.parse/etc. Oracle: every call returns; no Go panic crosses the API (the poll-budget sentinel excepted); the worker survives and answers. Non-trivial = the text is accepted or otto's scanner delivers ≥ 3 tokens before the first syntax error; distinct by the piece list",
 	Quick:    300,
 	Thorough: 2500,
 	Gen:      genSource,
@@ -544,6 +613,9 @@ func TestHostileSnippets(t *testing.T) {
 	}
 	for _, lit := range soupLiterals {
 		cases = append(cases, sourceCase{Pieces: []piece{{T: lit}}, Limit: 64, Mode: "literal"})
+	}
+	for _, re := range regexpSeeds {
+		cases = append(cases, sourceCase{Pieces: []piece{{T: re}}, Limit: 64, Mode: "regexp-prefixes"})
 	}
 	sourceFacet.Each(t, cases)
 }
